@@ -11,6 +11,7 @@
 package simrt
 
 import (
+	"os"
 	"fmt"
 	"runtime"
 	"sort"
@@ -488,7 +489,8 @@ func Go(site string, f func()) {
 func Exit(code int) {
 	s := cur.Load()
 	if s == nil {
-		panic(fmt.Sprintf("simrt.Exit(%d) outside a simulation", code))
+		// not inside a simulation (an instrumented program run as a real process): the real thing
+		os.Exit(code)
 	}
 	if t := CurrentTask(); t != nil && t.proc != nil {
 		// a child process exits: only that process ends
